@@ -1,4 +1,5 @@
 import Whv.Lemmas.Verify
+import Whv.Driver.Vaa
 /-!
 # C06 — signature verification accepts exactly valid, ordered, in-set signatures
 
@@ -168,6 +169,24 @@ theorem accepted_length_le (recover : Bytes → Option Addr) (sigs : List Sig) (
   by_cases hlen : addrs.length < sigs.length
   · rw [if_pos hlen] at h; cases h
   · omega
+
+private theorem pairwiseB_iff (r : Sig → Sig → Bool) (l : List Sig) :
+    Whv.Driver.VaaFam.validB.pairwiseB r l = true ↔ l.Pairwise (fun a b => r a b = true) := by
+  induction l with
+  | nil => simp [Whv.Driver.VaaFam.validB.pairwiseB]
+  | cons a l ih =>
+    simp only [Whv.Driver.VaaFam.validB.pairwiseB, Bool.and_eq_true, List.all_eq_true, ih, List.pairwise_cons]
+
+/-- The Boolean Spec the driver evaluates on the implementation's results (`validB`, compiled code) is exactly `Valid`. -/
+theorem validB_iff (recover : Bytes → Option Addr) (sigs : List Sig) (addrs : List Addr) :
+    Whv.Driver.VaaFam.validB recover sigs addrs = true ↔ Valid recover sigs addrs := by
+  unfold Whv.Driver.VaaFam.validB Valid
+  simp only [Bool.and_eq_true, List.all_eq_true, pairwiseB_iff, decide_eq_true_eq, beq_iff_eq, bne_iff_ne, ne_eq]
+  constructor
+  · intro ⟨⟨h1, h2⟩, h3⟩
+    exact ⟨h1, h2, h3⟩
+  · intro ⟨h1, h2, h3⟩
+    exact ⟨⟨h1, h2⟩, h3⟩
 
 /-- Non-vacuity: a 3-guardian list, signatures by guardians 0 and 2 — accepted; re-indexed — rejected. -/
 def rec3 : Bytes → Option Addr := fun s => match s with
